@@ -3,13 +3,14 @@
  * deregisters / pauses A, or stops the loop, at every interleaving with the pool worker running the task (preemption-bounded).
  * Oracle: ASan (the worker must not touch a freed source/module), scheduler verdicts, and - when A stays RUNNING - exactly one
  * task event carrying the body's return value.
- * Config: --scenario 0 deliver | 1 stop | 2 deregister | 3 pause-resume | 4 quit | 5 stop+restart */
+ * Config: --scenario 0 deliver | 1 stop | 2 deregister | 3 pause-resume | 4 quit | 5 stop+restart | 6 deliver, then the user opens descriptors (C20) */
 #define _GNU_SOURCE
 #include "schedx.h"
 #include <stdio.h>
 #include <stdlib.h>
 #include <string.h>
 #include <unistd.h>
+#include <fcntl.h>
 #include <stdatomic.h>
 #include <module/mod.h>
 #include <module/ctx.h>
@@ -21,6 +22,8 @@ static m_mod_t *A, *B;
 static atomic_int task_started, task_finished;
 static int task_events, task_retval, a_stops, other_events;
 
+#define NUFD6 6
+static int ufd6[NUFD6] = { -1, -1, -1, -1, -1, -1 };
 static void quiet(const m_mod_t *m, const char *f, va_list a) { (void)m; (void)f; (void)a; }
 static void on_stop(m_mod_t *m) { if (m == A) a_stops++; }
 static void on_evt(m_mod_t *m, const m_queue_t *const evts) {
@@ -54,6 +57,9 @@ void hx_main(void) {
     case 3: m_mod_pause(A); sch_yield(); pump(2); m_mod_resume(A); for (int i = 0; i < 200 && !task_events && atomic_load(&task_finished) < 2; i++) { m_ctx_dispatch(); sch_pass(); } pump(2); break;
     case 4: break;
     case 5: m_mod_stop(A); sch_yield(); m_mod_start(A); pump(3); break;
+    case 6: for (int i = 0; i < 200 && !task_events; i++) { m_ctx_dispatch(); sch_pass(); }      /* the task is done and its event delivered ... */
+        for (int i = 0; i < NUFD6; i++) ufd6[i] = dup(0);                                        /* ... the user opens descriptors (they take the lowest free numbers) ... */
+        break;                                                                                   /* ... and the loop stops: the library must not close what it does not own */
     }
     m_ctx_quit(5);
     rc = m_ctx_dispatch();             /* loop stop: the pool is freed here (running tasks are waited for) */
@@ -62,19 +68,23 @@ void hx_main(void) {
     if (A) m_mod_deregister(&A);
     m_mod_deregister(&B);
     m_ctx_deregister();
+    if (SCEN == 6) for (int i = 0; i < NUFD6; i++) {
+        if (ufd6[i] >= 0 && fcntl(ufd6[i], F_GETFD) == -1) sch_fail("LG.fd", "LG.fd|bad-close", "user descriptor %d, opened after the task had finished, was closed by the library (loop stop / context release)", ufd6[i]);
+        if (ufd6[i] >= 0) close(ufd6[i]);
+    }
 }
 void hx_final(void) {
     if (task_events > 1) sch_fail("EV.once", "EV.once|task", "the task event was delivered %d times", task_events);
     if (task_events == 1 && task_retval != 42) sch_fail("EV.owner", "EV.owner|task-retval", "task event carries %d, the body returned 42", task_retval);
-    if (SCEN == 0 && task_events != 1) sch_fail("EV.lost", "EV.lost|task", "the task finished but its event was never delivered to the RUNNING module");
+    if ((SCEN == 0 || SCEN == 6) && task_events != 1) sch_fail("EV.lost", "EV.lost|task", "the task finished but its event was never delivered to the RUNNING module");
     if ((SCEN == 1 || SCEN == 2) && task_events && a_stops == 0) sch_fail("CB.running", "CB.running|task", "task event delivered although the module was stopped");
     if (atomic_load(&task_started) > 1 && SCEN != 3 && SCEN != 5) sch_fail("TK.once", "TK.once", "the task body ran %d times", atomic_load(&task_started));
     sch_obs(task_events * 10 + a_stops);
 }
 void hx_config(int argc, char **argv) {
     for (int i = 1; i < argc - 1; i++) if (!strcmp(argv[i], "--scenario")) SCEN = atoi(argv[i + 1]);
-    static const char *sn[] = { "deliver", "stop-while-running", "deregister-while-running", "pause-resume-while-running", "quit-while-running", "stop-restart-while-running" };
-    snprintf(cfg, sizeof cfg, "scenario=%s", sn[SCEN % 6]);
+    static const char *sn[] = { "deliver", "stop-while-running", "deregister-while-running", "pause-resume-while-running", "quit-while-running", "stop-restart-while-running", "deliver-then-user-opens-descriptors" };
+    snprintf(cfg, sizeof cfg, "scenario=%s", sn[SCEN % 7]);
 }
 const char *hx_config_str(void) { return cfg; }
 int main(int argc, char **argv) { return sch_main(argc, argv); }
